@@ -163,13 +163,63 @@ def check_poll_fn(ctx, rule, f, sites):
                 fw = forwarded_site(e, site_by_loc)
                 ret_kind[loc[0]] = ("FW", fw, loc) if fw else ("O", loc)
 
+    # a Pending that is first bound to a local (`let poll = match .. { .. => Poll::Pending, .. }; self.inner.set(rx); poll`): remembered
+    # on the path that builds it and turned into a Pending return where that local is moved into the return place
+    pend_local = {}
+    for loc_, s_ in b.iter_stmts():
+        if s_["k"] == "assign" and s_["place"]["l"] != 0 and not s_["place"]["proj"] and s_["rv"]["k"] == "agg" and s_["rv"].get("adt") == "std::task::Poll" and s_["rv"].get("variant") == "Pending":
+            pend_local[loc_[0]] = loc_
+    o_takes = {}
+    for blk_, rk_ in ret_kind.items():
+        if rk_[0] == "O":
+            for loc2, kind2, payload2 in blocks_assigning_ret(b):
+                if loc2[0] == blk_ and kind2 == "assign":
+                    e2 = b.expr_of_rv(payload2, 10, ())
+                    o_takes[blk_] = {a_[6] for a_ in find_all(e2, lambda y: y[0] == "agg" and y[1] == "adt" and y[2] == "std::task::Poll" and y[3] == "Pending")}
+    # termination memory: a bool field of self that is set to `true` under the None edge of an input's poll ("this stream has ended")
+    # and tested before that input is polled. On an edge where such a field is known to be true the input counts as Ended.
+    ended_mem = {}
+    cand, bad = {}, set()
+    for loc_, s_ in b.iter_stmts():
+        if s_["k"] != "assign" or not s_["place"]["proj"]:
+            continue
+        fld = last_field(s_["place"])
+        if not fld:
+            continue
+        rv_ = s_["rv"]
+        if rv_["k"] == "use" and rv_["op"]["k"] == "const" and "bool" in str(rv_["op"].get("ty")):
+            if rv_["op"].get("int") == 1:
+                ins_ = set()
+                for fct in conds.bare(conds.dominating_facts(b, loc_[0])):
+                    if fct[0] == "variant" and fct[2] == frozenset(["None"]):
+                        for c_ in find_all(fct[1], lambda y: y[0] == "call" and y[4] in site_by_loc):
+                            ins_.add(site_by_loc[c_[4]])
+                if len(ins_) == 1:
+                    cand.setdefault(fld, set()).update(ins_)
+                else:
+                    bad.add(fld)
+        else:
+            bad.add(fld)   # written with something that is not a constant: not a pure termination memory
+    for fld, ins_ in cand.items():
+        if fld in bad or len(ins_) != 1:
+            continue
+        if _written_elsewhere(ctx.facts, f, fld):
+            continue
+        ended_mem[fld] = ins_
+    if os.environ.get("VERIF_DEBUG_TS"): print("ended_mem", f.path, ended_mem, inputs)
     init = (tuple("U" for _ in inputs), None)
 
     def transfer(blk, st):
         tags, ret = st
         tags = list(tags)
+        if blk in pend_local and blk not in ret_kind:
+            ret = ("PLX", pend_local[blk])
         if blk in ret_kind:
-            ret = ret_kind[blk]
+            rk_ = ret_kind[blk]
+            if rk_[0] == "O" and ret is not None and ret[0] == "PLX" and ret[1] in o_takes.get(blk, ()):
+                ret = ("PL", ret[1])
+            else:
+                ret = rk_
         if blk in rearm_blocks:
             i_ = idx[rearm_blocks[blk]]
             # replacing a future that is still Pending discards the waker registered with it
@@ -185,6 +235,20 @@ def check_poll_fn(ctx, rule, f, sites):
             return st
         tags = list(tags)
         for fct in fs:
+            if fct[0] == "truth" and ended_mem:
+                # `if self.x_done` / `while !self.x_done`: on the edge where the memory field is true the input has ended earlier
+                val = fct[2]
+                e_ = fct[1]
+                while e_[0] == "un" and e_[1] == "Not":
+                    e_ = e_[2]
+                    val = not val
+                x_ = strip(e_)
+                if x_[0] == "field" and x_[2] in ended_mem and val is True:
+                    for nm_ in ended_mem[x_[2]]:
+                        # the field is true only after a None of that input (every write of `true` sits under its None edge, in
+                        # this function and nowhere else): whatever the walk assumed before, the input has ended
+                        tags[idx[nm_]] = "E"
+                continue
             if fct[0] != "variant":
                 continue
             x = strip(fct[1], through_calls=False)
@@ -226,7 +290,7 @@ def check_poll_fn(ctx, rule, f, sites):
     all_ok = True
     for rb in b.return_blocks():
         for tags, ret in outs.get(rb, ()):
-            if ret is None or ret[0] == "O":
+            if ret is None or ret[0] in ("O", "PLX"):
                 continue
             tags = list(tags)
             if ret[0] == "FW":
@@ -273,6 +337,50 @@ def check_poll_fn(ctx, rule, f, sites):
         ctx.holds(rule, f, "pending=>all-inputs-settled", f.loc(),
                   "inputs %s: at each of the %d (Pending-returning path, state) pairs every input polled with the caller's cx is Pending/Ended (or gated)" % (inputs, n_pending))
     return inputs
+
+
+def _written_elsewhere(F, f, fld):
+    """is the bool field `fld` given a value other than `false` outside `f` (another method's assignment, a constructor literal)?"""
+    def owner_mod(bb, place=None, adt=None):
+        # module of the struct that owns the field: structs of other modules with a field of the same name are other structs
+        if adt is None:
+            ty = str(bb.locals[place["l"]]["ty"])
+            for el in place["proj"]:
+                if isinstance(el, dict) and "f" in el:
+                    if el["name"] == fld:
+                        break
+                    ty = str(el.get("ty") or ty)
+            adt = re.sub(r"^(&('\w+ )?(mut )?|std::pin::Pin<)+", "", ty)
+        adt = adt.split("<")[0]
+        return adt.rsplit("::", 1)[0] if "::" in adt else ""
+    mine = None
+    for loc_, s_ in f.built.iter_stmts():
+        if s_["k"] == "assign" and s_["place"]["proj"] and last_field(s_["place"]) == fld:
+            mine = owner_mod(f.built, place=s_["place"])
+            break
+    for g in F.find(crate=f.crate):
+        if g is f or not g.built or g.path == f.path:
+            continue
+        bb = g.built
+        for loc_, s_ in bb.iter_stmts():
+            if s_["k"] != "assign":
+                continue
+            rv_ = s_["rv"]
+            if s_["place"]["proj"] and last_field(s_["place"]) == fld and owner_mod(bb, place=s_["place"]) == mine:
+                if not (rv_["k"] == "use" and rv_["op"]["k"] == "const" and rv_["op"].get("int") == 0):
+                    return True
+            if rv_["k"] == "agg" and rv_.get("of") == "adt" and owner_mod(bb, adt=rv_["adt"]) == mine:
+                for nm_, o_ in zip(rv_.get("fields") or [], rv_["ops"]):
+                    if nm_ != fld:
+                        continue
+                    if o_["k"] == "const":
+                        if o_.get("int") != 0:
+                            return True
+                    elif not o_["place"]["proj"] and str(bb.locals[o_["place"]["l"]]["ty"]) == "bool":
+                        return True    # a computed initial value
+                    elif o_["place"]["proj"] and not str(bb.locals[o_["place"]["l"]]["ty"]).startswith("&"):
+                        pass           # `&mut self.field` of a projection struct and the like: a reference, not a value
+    return False
 
 
 def polled_owner(b, op, depth=0):
